@@ -217,3 +217,68 @@ pub fn c07_blend_exclusion_f32_finite() {
     assert!(r.color.red.is_finite() && r.alpha.is_finite());
 }
 
+
+use crate::c07_support::N32;
+use palette::color_difference::{DeltaE, ImprovedDeltaE};
+use palette::white_point::D65;
+use palette::{Lab, Lch};
+
+fn within(x: f32, lo: f32, hi: f32) -> bool {
+    let eps = (hi - lo) * 1e-9;
+    x == lo || x == hi || x == 0.0 || (x >= lo + eps && x <= hi - eps)
+}
+
+/// Delta E and improved Delta E of two Lch colours (f32 arithmetic bit-precise; sin / cos of the hue are arbitrary values
+/// in [-1, 1], see c07_support): never NaN or infinite for in-range lightness / chroma and any hue in [-360, 360] - in
+/// particular the radicand cannot be driven negative by cancellation between nearly equal colours
+/// @fn <Lch<Wp,T> as DeltaE>::delta_e
+/// @fn <Lch<Wp,T> as ImprovedDeltaE>::improved_delta_e
+/// @fn <Lab<Wp,T> as FromColorUnclamped<Lch<Wp,T>>>::from_color_unclamped
+/// @fn <Lab<Wp,T> as EuclideanDistance>::distance_squared
+/// @bound all f32 lightness in [0,100], chroma in [0,200], hue in [-360,360], each on a bound, zero or 1e-9 of the range inside; transcendental functions nondeterministic within their contracts
+#[kani::proof]
+pub fn c07_lch_delta_e_f32_finite() {
+    let (l1, c1, h1, l2, c2, h2): (f32, f32, f32, f32, f32, f32) = (kani::any(), kani::any(), kani::any(), kani::any(), kani::any(), kani::any());
+    kani::assume(within(l1, 0.0, 100.0) && within(l2, 0.0, 100.0) && within(c1, 0.0, 200.0) && within(c2, 0.0, 200.0));
+    kani::assume(within(h1, -360.0, 360.0) && within(h2, -360.0, 360.0));
+    kani::cover!(true);
+    let a = Lch::<D65, N32>::new(N32(l1), N32(c1), N32(h1));
+    let b = Lch::<D65, N32>::new(N32(l2), N32(c2), N32(h2));
+    let d = a.delta_e(b);
+    assert!(d.0.is_finite(), "Lch delta E is NaN or infinite");
+    let e = a.improved_delta_e(b);
+    assert!(e.0.is_finite(), "Lch improved delta E is NaN or infinite");
+}
+
+/// Delta E of two Lch colours with the SAME hue and lightness (sin / cos of a zero hue difference are exact: 0 and 1):
+/// never NaN - the case in which a polar closed form cancels catastrophically
+/// @fn <Lch<Wp,T> as DeltaE>::delta_e
+/// @fn <Lch<Wp,T> as ImprovedDeltaE>::improved_delta_e
+/// @bound all f32 chroma pairs in [0,200], one lightness and one hue (symbolic, shared by both colours)
+#[kani::proof]
+pub fn c07_lch_delta_e_same_hue_f32_finite() {
+    let (l, c1, c2, h): (f32, f32, f32, f32) = (kani::any(), kani::any(), kani::any(), kani::any());
+    kani::assume(within(l, 0.0, 100.0) && within(c1, 0.0, 200.0) && within(c2, 0.0, 200.0) && within(h, -360.0, 360.0));
+    kani::cover!(true);
+    let a = Lch::<D65, N32>::new(N32(l), N32(c1), N32(h));
+    let b = Lch::<D65, N32>::new(N32(l), N32(c2), N32(h));
+    let d = a.delta_e(b);
+    assert!(d.0.is_finite(), "Lch delta E is NaN or infinite");
+    let e = a.improved_delta_e(b);
+    assert!(e.0.is_finite(), "Lch improved delta E is NaN or infinite");
+}
+
+/// Delta E / improved Delta E of two Lab colours (f32): never NaN or infinite in range
+/// @fn <Lab<Wp,T> as DeltaE>::delta_e
+/// @fn <Lab<Wp,T> as ImprovedDeltaE>::improved_delta_e
+/// @bound all f32 L in [0,100], a, b in [-128,127]
+#[kani::proof]
+pub fn c07_lab_delta_e_f32_finite() {
+    let (l1, a1, b1, l2, a2, b2): (f32, f32, f32, f32, f32, f32) = (kani::any(), kani::any(), kani::any(), kani::any(), kani::any(), kani::any());
+    kani::assume(within(l1, 0.0, 100.0) && within(l2, 0.0, 100.0) && within(a1, -128.0, 127.0) && within(a2, -128.0, 127.0) && within(b1, -128.0, 127.0) && within(b2, -128.0, 127.0));
+    kani::cover!(true);
+    let x = Lab::<D65, N32>::new(N32(l1), N32(a1), N32(b1));
+    let y = Lab::<D65, N32>::new(N32(l2), N32(a2), N32(b2));
+    assert!(x.delta_e(y).0.is_finite(), "Lab delta E is NaN or infinite");
+    assert!(x.improved_delta_e(y).0.is_finite(), "Lab improved delta E is NaN or infinite");
+}
